@@ -4,12 +4,14 @@
    plaintext as over an in-memory cursor, opens the same way, and so `read_full` / `read_exact`
    on top of it return the same bytes whatever the schedule.  Corollary of LayerStack.v and
    Stream.throttled_refines. *)
+From MLA Require Import Limit.
 From MLA Require Import Base Stream EncLayer EncLayerProofs CompLayer CompLayerProofs RawLayer RawLayerProofs LayerStack.
 From Coq Require Import ZifyBool ZifyNat ZifyN.
 Open Scope N_scope.
 
 Section StackThrottled.
   Variables CHUNK TAG BLOCK LIMIT : N.
+  Local Hint Extern 0 Limit => exact LIMIT : typeclass_instances.
   Hypothesis HCHUNK : 0 < CHUNK.
   Hypothesis HTAG : 0 < TAG.
   Hypothesis Hsz : CHUNK + TAG <= 2 ^ 31.       (* LayerStack: the u64 / i64 ranges of the encryption reader's seek *)
